@@ -30,6 +30,7 @@ type Solver struct {
 	bin    string
 	log    *os.File // optional SMT-LIB transcript of leaf obligations
 	tmo    int      // per-query timeout ms
+	fpMode bool     // the short floating-point timeout is in force
 	xcap   int      // cross-solver sample: at most this many queries are kept
 	xlog   []xquery
 	xseen  int
@@ -113,6 +114,7 @@ func (s *Solver) start() {
 	s.cmd, s.inRaw, s.in, s.out = c, in, bufio.NewWriterSize(in, 1<<16), bufio.NewReaderSize(out, 1<<16)
 	s.decl = map[string]bool{}
 	s.stack = nil
+	s.fpMode = false
 	if strings.Contains(s.bin, "cvc5") {
 		s.in.WriteString("(set-logic QF_BV)\n")
 	}
@@ -214,6 +216,27 @@ func (s *Solver) readLine() string {
 }
 
 // check decides pc ∧ extra (extra may be nil).
+// fpTimeout: floating-point queries get a short limit (bit-blasted multipliers and
+// rounding either answer at once or not at all); an unknown is an inconclusive path.
+func (s *Solver) fpTimeout(ts []*Term) {
+	fp := false
+	for _, t := range ts {
+		if t.fp {
+			fp = true
+			break
+		}
+	}
+	if fp == s.fpMode || strings.Contains(s.bin, "cvc5") {
+		return
+	}
+	s.fpMode = fp
+	if fp {
+		s.in.WriteString("(set-option :timeout 4000)\n")
+	} else {
+		fmt.Fprintf(s.in, "(set-option :timeout %d)\n", s.tmo)
+	}
+}
+
 func (s *Solver) check(pc []*Term, extra *Term) satResult {
 	t0 := time.Now()
 	all := pc
@@ -222,6 +245,7 @@ func (s *Solver) check(pc []*Term, extra *Term) satResult {
 	}
 	s.declareAll(all...)
 	s.sync(pc)
+	s.fpTimeout(all)
 	if extra != nil {
 		s.in.WriteString("(push 1)\n(assert ")
 		s.in.WriteString(extra.s)
@@ -268,6 +292,7 @@ func (s *Solver) model(pc []*Term, extra *Term, vars []*Term) (map[string]uint64
 	}
 	s.declareAll(all...)
 	s.sync(pc)
+	s.fpTimeout(all)
 	s.in.WriteString("(push 1)\n")
 	if extra != nil {
 		s.in.WriteString("(assert " + extra.s + ")\n")
@@ -368,7 +393,17 @@ func crossCheck(bin string, qs []xquery) (int, int, int, error) {
 	}
 	defer os.Remove(f.Name())
 	w := bufio.NewWriter(f)
-	w.WriteString("(set-logic QF_BV)\n")
+	fpScript := false
+	for _, q := range qs {
+		if strings.Contains(q.text, "to_fp") || strings.Contains(q.text, "fp.") {
+			fpScript = true
+		}
+	}
+	if fpScript {
+		w.WriteString("(set-logic ALL)\n")
+	} else {
+		w.WriteString("(set-logic QF_BV)\n")
+	}
 	for _, q := range qs {
 		w.WriteString(q.text)
 	}
